@@ -16,6 +16,10 @@ This module generates the cases:
               (onConnect/onChallenge/onWelcome/onJoin/onLeave/onDisconnect raising, onWelcome denying, onJoin
               leaving, onLeave not calling / calling the default implementation, ...), on both transports;
 * kinds     - every subset of the six request kinds outstanding x every way the session ends x onLeave variants;
+* cancelled - the APPLICATION cancels the Deferred/Future of some of its outstanding requests (timeout / give-up idiom; the
+              library keeps the entry until the router confirms) and then the session ends: every non-empty subset of a
+              population covering all six tables (two calls) x every way the session ends x onLeave variants; also before
+              the session is established - all the OTHER requests must still be completed with an error;
 * retry     - outstanding requests whose errback re-issues a request of the same / another kind (retry-on-error)
               while the session ends via GOODBYE (either initiator), loss, disconnect or a protocol failure;
 * illegal   - every illegal message kind at every position of every short conversation, including AFTER the session
@@ -41,7 +45,9 @@ RULE = ("a case = (client transport websocket|rawsocket, serializer, behaviour o
         "welcome+goodbye coalesced in one read, router goodbye (reply or crossing), leave (<=2), disconnect, requests, one illegal message, "
         "finish own close}, each followed by {clean loss, unclean loss, plain end}, i.e. transport loss after EVERY prefix "
         "of every conversation; kinds family: all 64 subsets of the six request kinds x 9 session endings x 4 onLeave "
-        "variants; retry family: each request kind (and groups) with an errback that re-issues a request of the same/another "
+        "variants; cancelled family: a population of outstanding requests covering all six tables (two calls; also call-only and reversed "
+        "populations, and the four pre-session kinds) of which EVERY non-empty subset is cancelled by the application (Deferred/Future "
+        "cancel) x 9 session endings (cancel before or after the local leave(), or from inside the errback of a request that is just being failed) x onLeave variants; retry family: each request kind (and groups) with an errback that re-issues a request of the same/another "
         "kind x 9 session endings x 4 onLeave variants; rejoin family: 7 first sessions (GOODBYE by either side, crossing, ABORT, ...) x onLeave keeping the transport x "
         "join() again x ALL step sequences of length <= 3 (4 thorough) with loss after every prefix for the second session; "
         "illegal-after-end family: every pre-session-illegal message kind after every way a session ended with the transport "
@@ -60,6 +66,8 @@ ASSUMPTIONS = [
     "illegal = exactly the statement's definition (pre-session: anything but WELCOME/ABORT/CHALLENGE; established: the handshake messages HELLO/WELCOME/CHALLENGE/AUTHENTICATE/ABORT - an ABORT after WELCOME is a protocol violation exactly like a second WELCOME; ABORT before establishment is legal); 'rejected as a protocol violation' is observed as: the client asks its transport to close/abort (or writes a WebSocket close frame) and none of the message's effects (callback, observer, reply on the wire, successful completion of a request) happens",
     "after the client sent ABORT, after a completed GOODBYE exchange / a router ABORT and after a protocol failure the scripted router sends nothing further - except the quantifier's one illegal message (no session is established then, so the pre-session rule applies: anything but WELCOME/ABORT/CHALLENGE must be rejected; asserted only while the client keeps the transport, i.e. onLeave without the default implementation) and the answers to a new HELLO",
     "two consecutive sessions on one transport (join() again after a completed GOODBYE exchange / router ABORT with an onLeave that keeps the transport): join and leave are judged at most once and in order PER SESSION, connect and disconnect per transport connection; the GOODBYE clauses and leave-exactly-when apply to each session afresh",
+    "a request whose Deferred/Future the application cancelled itself is complete (with an error) from that moment and nothing more is asserted about it; the scripted router does not answer the CANCEL, so the entry is still in the library's table when the session ends - every OTHER outstanding request is due as usual",
+    "API after the end covers every public entry point: the six request kinds with option variants, Subscription.unsubscribe() for a subscription id shared by several local handlers (first / middle / last handler), the decorated-object forms subscribe(obj) / register(obj), join(); each must raise or return an already failed future - a return value that is not a failed future (None, a successful future, a gathered list) counts as not failing",
     "nothing-pending is asserted when the transport is gone, and additionally right after 'leave' when the library's default onLeave ran; 'API calls afterwards' are made once the transport is gone: a synchronous exception or an already failed future both count as failing immediately",
     "exceptions that reach the networking framework (e.g. asyncio 'Future exception was never retrieved' for a failing onJoin) are outside the statement: counted as evidence (escaped_to_framework_observed), never a violation",
 ]
@@ -78,6 +86,16 @@ DECIDING = {
     "api_after_end_publish_noack": 1000, "api_after_end_call_opts": 1000, "api_after_end_subscribe_opts": 1000,
     "api_after_end_register_opts": 1000, "api_after_end_unsubscribe": 100, "api_after_end_unregister": 100,
     "reissued_in_errback": 200, "reissued_future_returned": 50, "coalesced_welcome_goodbye": 20, "goodbye_crossing": 20, "conv_c2-welcome": 10, "conv_c1-rabort": 10, "transports_fw": 4, "end_reasons": 12,
+    # requests the application cancelled itself sit in the tables when the session ends: the OTHER requests were judged
+    "cancelled_local": 4000, "cancelled_local_call": 1000, "cancelled_local_publish": 700, "cancelled_local_subscribe": 700,
+    "cancelled_local_unsubscribe": 300, "cancelled_local_register": 700, "cancelled_local_unregister": 300,
+    "pending_checked_beside_cancelled": 5000, "pending_checked_beside_cancelled_call": 1500, "pending_checked_beside_cancelled_publish": 1000,
+    "pending_checked_beside_cancelled_subscribe": 1000, "pending_checked_beside_cancelled_unsubscribe": 400,
+    "pending_checked_beside_cancelled_register": 1000, "pending_checked_beside_cancelled_unregister": 400,
+    "pending_after_leave_beside_cancelled_checked": 700, "cancel_patterns": 500, "cancelled_in_errback": 100,
+    # API after the end on every kind of handle: a subscription id shared by several handlers, decorated objects, join()
+    "shared_subscription_set_up": 5000, "api_after_end_unsubscribe_shared_first": 5000, "api_after_end_unsubscribe_shared_next": 5000,
+    "api_after_end_unsubscribe_shared_last": 5000, "api_after_end_subscribe_obj": 20000, "api_after_end_register_obj": 20000, "api_after_end_join": 20000,
 }
 
 KINDS = ["call", "publish", "subscribe", "unsubscribe", "register", "unregister"]
@@ -287,6 +305,60 @@ RETRY_ENDINGS = [
 ]
 
 
+CANCEL_POP = ["publish", "subscribe", "unsubscribe", "call", "call", "register", "unregister"]
+CANCEL_POP_PRE = ["call", "publish", "call", "subscribe", "register"]
+
+
+def family_cancelled(tier, seed):
+    """Requests the application itself completed (cancelled Deferred / Future) sit in the request tables next to pending
+    ones when the session ends: EVERY non-empty subset of the population is cancelled, crossed with every ending.
+    (Which neighbour of a completed entry matters depends on the sweep order, which the generator does not know:
+    all subsets cover every neighbourhood.)"""
+    onleaves = ("ok", "nosuper", "raise_nosuper", "raise")
+    n = len(CANCEL_POP)
+    for mask in range(1, 2 ** n):
+        for ei, ending in enumerate(ENDINGS):
+            hh = int(h(["can", mask, ei, seed]), 16)
+            ols = onleaves if tier != "quick" else [onleaves[hh % 4]]
+            for oi, onleave in enumerate(ols):
+                trs = TRANSPORTS if tier != "quick" else [TRANSPORTS[(hh >> 2) & 1]]
+                for tr in trs:
+                    # the cancellation happens while joined, or after this side started closing (GOODBYE under way)
+                    late = ending[0] == ["leave"] and (hh >> 3) & 1
+                    steps = [["welcome"], ["setup"], ["req", list(CANCEL_POP)]]
+                    if late:
+                        steps += [ending[0], ["cancel", mask]] + ending[1:]
+                    else:
+                        steps += [["cancel", mask]] + ending
+                    yield {"transport": tr, "ser": "json", "modes": ({"onLeave": onleave} if onleave != "ok" else {}), "steps": steps}
+    # a population with the two calls first / in the middle (insertion order inside one table), reversed issue order
+    for pop in (["call", "call", "call", "register"], ["call", "publish", "call"], list(reversed(CANCEL_POP))):
+        for mask in range(1, 2 ** len(pop)):
+            if tier == "quick" and len(pop) > 4 and bin(mask).count("1") > 2:
+                continue
+            for ei, ending in enumerate(ENDINGS[:4] if tier == "quick" else ENDINGS):
+                hh = int(h(["can2", pop, mask, ei, seed]), 16)
+                for tr in (TRANSPORTS if tier != "quick" else [TRANSPORTS[hh & 1]]):
+                    yield {"transport": tr, "ser": "json", "modes": ({"onLeave": "nosuper"} if (hh >> 1) & 1 else {}),
+                           "steps": [["welcome"], ["setup"], ["req", list(pop)], ["cancel", mask]] + ending}
+    # the cancellation happens INSIDE the sweep: the errback of a request that is being failed cancels another pending one
+    for pop in (list(CANCEL_POP), list(reversed(CANCEL_POP)), ["call", "call", "call", "register"], ["publish", "call", "subscribe", "call"]):
+        for ei, ending in enumerate(ENDINGS):
+            hh = int(h(["can4", pop, ei, seed]), 16)
+            for oi, onleave in enumerate(onleaves):
+                for tr in (TRANSPORTS if tier != "quick" else [TRANSPORTS[(hh + oi) & 1]]):
+                    yield {"transport": tr, "ser": "json", "modes": ({"onLeave": onleave} if onleave != "ok" else {}),
+                           "steps": [["welcome"], ["setup"], ["req", list(pop), "cancel_next"]] + ending}
+    # cancelled before the session is established
+    for mask in range(1, 2 ** len(CANCEL_POP_PRE)):
+        for ei, ending in enumerate(([["lose", 0]], [["abort"], ["finish"]], [["challenge"], ["lose", 1]], [["illegal", "EVENT"], ["finish"]],
+                                     [["welcome"], ["lose", 0]], [["welcome"], ["rgoodbye"], ["finish"]])):
+            hh = int(h(["can3", mask, ei, seed]), 16)
+            for tr in (TRANSPORTS if tier != "quick" else [TRANSPORTS[hh & 1]]):
+                yield {"transport": tr, "ser": "json", "modes": ({"onLeave": "nosuper"} if (hh >> 1) & 1 else {}),
+                       "steps": [["req", list(CANCEL_POP_PRE)], ["cancel", mask]] + ending}
+
+
 def family_retry(tier, seed):
     """Retry-on-error: the errback of an outstanding request re-issues a request of the same / of another kind while
     the session is ending (GOODBYE from either side: the transport is still usable inside onLeave; loss: it is not).
@@ -378,7 +450,7 @@ def family_illegal(tier, seed):
 
 
 def enumerated(tier, seed):
-    for fam, gen in (("kinds", family_kinds), ("retry", family_retry), ("illegal", family_illegal),
+    for fam, gen in (("kinds", family_kinds), ("cancelled", family_cancelled), ("retry", family_retry), ("illegal", family_illegal),
                      ("illegal_after_end", family_illegal_after_end), ("rejoin", family_rejoin), ("tree", family_tree)):
         for case in gen(tier, seed):
             yield fam, case
@@ -411,6 +483,8 @@ def gen_random(rng):
             pool = KINDS if have_setup else PRE_KINDS
             kinds = [k for k in pool if rng.random() < 0.5] or [rng.choice(pool)]
             steps.append(["req", kinds, retry] if retry else ["req", kinds])
+            if rng.random() < 0.3:
+                steps.append(["cancel", rng.randrange(1, 64)])      # the application gives up on some of them
         elif l == "illegal":
             table = ILLEGAL_POST if phase in ("joined", "closing") else ILLEGAL_PRE
             steps.append(["illegal", rng.choice(table)])
@@ -480,7 +554,7 @@ def run_shard(params, R):
     fw = "tx" if txaio.using_twisted else "aio"
     part, parts, tier, seed = params["part"], params["parts"], params["tier"], params["seed"]
     for name in DECIDING:
-        if name not in ("illegal_kinds", "transports_fw", "end_reasons", "rejoin_after"):
+        if name not in ("illegal_kinds", "transports_fw", "end_reasons", "rejoin_after", "cancel_patterns"):
             R.count(name, 0)
     for idx, (fam, case) in enumerate(enumerated(tier, seed)):
         if idx % parts != part:
@@ -508,13 +582,13 @@ MANIFEST_ENTRY = {
              "requests of all six kinds and one illegal message at any position; the transport is lost (clean and unclean) after "
              "every prefix of every conversation; each user callback (onConnect/onChallenge/onWelcome/onJoin/onLeave/"
              "onDisconnect) returns, raises, denies, leaves or skips the default implementation; all 64 populations of the six "
-             "request tables are crossed with every way a session ends; errbacks that re-issue a request (retry-on-error) run while the session ends; long random histories add several deviations at once. "
+             "request tables are crossed with every way a session ends; every subset of the outstanding requests is cancelled by the application (Deferred/Future cancel, entry still in the table) before the session ends and all others must still fail; errbacks that re-issue a request (retry-on-error) run while the session ends; long random histories add several deviations at once. "
              "One ordered history per life (callbacks, observers, messages decoded at the wire, future completions) is judged "
              "online: callbacks and observers in the order connect, join, leave, disconnect and at most once per transport; "
              "leave present exactly when a joined session ended or the router aborted; illegal-phase messages fail the transport "
              "without any effect; at most one GOODBYE, the peer's GOODBYE answered iff this side did not initiate; no request "
              "future pending (or completed successfully without a reply) once the transport is gone; every API call afterwards "
-             "(every request kind incl. option variants: publish without options / PublishOptions() / acknowledge False / True, stale subscription and registration handles) raises or returns a failed future and writes nothing; a second session joined on the same transport is judged afresh; illegal messages are also inserted after the session ended while the transport is kept. Held = no refuting event on the executions listed in the "
+             "(every request kind incl. option variants: publish without options / PublishOptions() / acknowledge False / True, stale subscription and registration handles, each handler of a subscription id shared by three handlers, subscribe(obj)/register(obj) with decorated methods, join()) raises or returns a failed future and writes nothing; a second session joined on the same transport is judged afresh; illegal messages are also inserted after the session ended while the transport is kept. Held = no refuting event on the executions listed in the "
              "evidence; not a proof."),
     "note": ("trusts vf/world.py fake transports, the plain-library router codec and the engine's session automaton; router "
              "messages delivered into a closing transport, leave after a client-side ABORT, order between callback and observer "
